@@ -12,8 +12,8 @@ proves it for every heap the API can build without `CloneWithPrefixMessage`);
 `argItems h v` — the non-nil, non-empty errors contained in the value `v`, aggregates flattened;
 `accOf acc args` / `restOf acc args` — the effective accumulator and the appended arguments (design Appendix B: a nil
 `err` makes the first non-nil argument the accumulator); `NoAlias h acc args` — no appended argument's chain ends in
-the accumulator's last cell (aliased calls such as `Append(a, b, a)` re-read the accumulator after it has grown; they are
-covered by the correspondence run, not by these theorems). -/
+the accumulator's last cell (aliased calls such as `Append(a, b, a)` re-read the accumulator after it has grown; their
+content is given by `append_items_alias`). -/
 namespace C11
 open Errs
 
@@ -196,13 +196,15 @@ theorem append_wf_any (h : Heap) (acc : Val) (args : List Val) (hwf : WF h)
     any order, with any aliasing) can build satisfies the invariant the `Append` theorems assume -/
 theorem reachable_wf (h : Heap) (r : Reachable h) : WF h := reachable_wf_aux r
 
-/-- NOT proved (kept visible): the content law for aliased calls — every argument is read in the heap as it is when
-    the loop reaches it, so `Append(a, b, a)` contains `a, b, a, b`.  Stated for one repeated accumulator argument. -/
-def append_alias_Statement : Prop :=
-  ∀ (h : Heap) (id : Nat) (mid : List Val), WF h → id < h.size → isEmpty h id = false →
-    (∀ id', Val.ref id' ∈ mid → id' < h.size ∧ tailOf h (fuelOf h) id ∉ chain h (fuelOf h) id') →
-    resItems (append h (.ref id) (mid ++ [.ref id])) =
-      (items h id ++ mid.flatMap (argItems h)) ++ (items h id ++ mid.flatMap (argItems h))
+/-- **content of `Append` with any aliasing** (no `NoAlias`; accumulator a non-empty `*Error`, which is also what a nil
+    `err` reduces to once the first non-nil `*Error` argument is adopted): the result contains the accumulator's errors
+    followed by `aliasItems`, where an argument whose chain ends in the accumulator's last cell `e0` contributes its
+    errors **plus everything appended so far** (it is read after the accumulator has grown: `Append(a, b, a)` contains
+    `a, b, a, b`), and every other argument contributes exactly its own errors -/
+theorem append_items_alias (h : Heap) (id : Nat) (args : List Val) (hwf : WF h) (hid : id < h.size)
+    (hne : isEmpty h id = false) (hids : ∀ id', Val.ref id' ∈ args → id' < h.size) :
+    resItems (append h (.ref id) args) = items h id ++ aliasItems h (tailOf h (fuelOf h) id) [] args :=
+  Errs.append_items_alias h id args hwf hid hne hids
 
 /-! non-vacuity: a concrete well-formed heap (`x`, the aggregate `{a1, a2}`, `y`), the call `Append(x, {a1,a2}, nil,
     (*Error)(nil), plain "p", y)` satisfies every hypothesis and yields the five errors in order -/
@@ -221,5 +223,8 @@ example : NoAlias h0 (.ref 0) args0 := by
   rcases hid' with rfl | rfl <;> decide
 example : (resItems (append h0 (.ref 0) args0)).map (·.msg) = ["x", "a1", "a2", "p", "y"] := by decide
 example : count (append h0 (.ref 0) args0).1 0 = 5 := by decide
+/-! the aliased call `Append(x, y, x)` contains `x, y, x, y` -/
+example : (resItems (append h0 (.ref 0) [.ref 3, .ref 0])).map (·.msg) = ["x", "y", "x", "y"] := by decide
+example : (aliasItems h0 0 [] [.ref 3, .ref 0]).map (·.msg) = ["y", "x", "y"] := by decide
 
 end C11
